@@ -30,13 +30,14 @@
 #define NSENT 4
 #define CLS_SIZE 3
 
-enum { K_ARR, K_MAP, K_CLS, K_BUF, K_FN, K_STR, K_OBJ };
+enum { K_ARR, K_MAP, K_CLS, K_BUF, K_FN, K_STR, K_OBJ, K_PROG };
 
 static int lpc_mode = 0, started = 0, halted = 0;
 static object_t *main_ob = 0;
 static svalue_t uslots[NSLOT];
 static object_t *uhandle[NOBJ];
 static int exist_used[NOBJ];
+static object_t *existp[NOBJ];	/* the object while it is on the object list or waiting for destruct2 */
 static int call_used[NCALL], call_handle[NCALL], call_owner[NCALL], call_st[NCALL];
 static object_t *call_ownerp[NCALL];
 extern void remove_all_call_out (object_t *);
@@ -54,17 +55,29 @@ static int ncells = 0;
 
 static long base[7];
 static int dangling (svalue_t * sv);
-static char *fn_names[6];		/* shared strings "cb", "cbs0".."cbs3", "act" of the uobj program */
+static char *fn_names[8];		/* shared strings "cb", "cbs0".."cbs3", "act" of the uobj program */
 static long fn_base = 0;
 static long fn_refs (void)
 {
   long n = 0;
-  for (int i = 0; i < 6; i++)
+  for (int i = 0; i < 8; i++)
     if (fn_names[i])
       n += COUNTED_REF (fn_names[i]);
   return n;
 }
-static program_t *uobj_prog = 0;	/* program of /c06/uobj: its ref is printed as p: */
+static program_t *uobj_prog = 0;	/* program of /c06/uobj: its ref is printed as p:<uobj>/<base> */
+static program_t *base_prog = 0;	/* program of /c06/base, inherited by /c06/uobj */
+#define NLAY 4
+static const char *lay_name[NLAY] = { "11", "12", "21", "31" };
+static program_t *lay_prog[NLAY][3];	/* replace_program() family: programs ra<L>, rb<L>, rc<L> */
+static int lay_tracked[NLAY];
+static int objkind[NOBJ];		/* 0 = /c06/uobj, 1 + L = /c06/rc<L> */
+static int objrepl[NOBJ];		/* replace_program() done */
+extern void replace_programs (void);
+extern int reclaim_objects (void);
+static int unloaded[2];		/* blueprint object of uobj / base destructed by `unload` */
+static long fault_first = 0;	/* fault-injection sweep: first instruction index after which the state differed */
+extern long verif_fault_countdown;	/* hook H2 (src/interpret.c): error raised at the k-th dispatched instruction */
 static object_t **anon = 0;		/* clones made by `clones n` */
 static int nanon = 0, capanon = 0;
 
@@ -170,6 +183,25 @@ static void track_slot (int d)
     }
 }
 
+/* counter of tracked value i; ~0 = its memory has been freed */
+static unsigned long cell_ref (int i)
+{
+  void *p = cells[i].p;
+  if (poisoned (p))
+    return ~0UL;
+  switch (cells[i].kind)
+    {
+    case K_ARR: case K_CLS: return ((array_t *) p)->ref;
+    case K_MAP: return ((mapping_t *) p)->ref;
+    case K_BUF: return ((buffer_t *) p)->ref;
+    case K_FN: return ((funptr_t *) p)->hdr.ref;
+    case K_OBJ: return ((object_t *) p)->ref;
+    case K_PROG: return ((program_t *) p)->ref;
+    case K_STR: return MSTR_REF ((char *) p);
+    }
+  return 0;
+}
+
 static void print_state (const char *status)
 {
   static char buf[400000];
@@ -186,16 +218,7 @@ static void print_state (const char *status)
           *o++ = 'x';
           continue;
         }
-      unsigned long r = 0;
-      switch (cells[i].kind)
-        {
-        case K_ARR: case K_CLS: r = ((array_t *) p)->ref; break;
-        case K_MAP: r = ((mapping_t *) p)->ref; break;
-        case K_BUF: r = ((buffer_t *) p)->ref; break;
-        case K_FN: r = ((funptr_t *) p)->hdr.ref; break;
-        case K_OBJ: r = ((object_t *) p)->ref; break;
-        case K_STR: r = MSTR_REF ((char *) p); break;
-        }
+      unsigned long r = cell_ref (i);
       o += sprintf (o, "%lu", r);
       if (o - buf > (long) sizeof buf - 64)
         break;
@@ -218,11 +241,23 @@ static void print_state (const char *status)
       }
     *q = 0;
   }
-  char pf[32];
+  char pf[64], pa[24], pb[24];
   if (!uobj_prog || poisoned (uobj_prog))
-    snprintf (pf, sizeof pf, "x");
+    snprintf (pa, sizeof pa, "x");
   else
-    snprintf (pf, sizeof pf, "%u", (unsigned) uobj_prog->ref);
+    snprintf (pa, sizeof pa, "%lu", (unsigned long) uobj_prog->ref);
+  if (!base_prog || poisoned (base_prog))
+    snprintf (pb, sizeof pb, "x");
+  else
+    snprintf (pb, sizeof pb, "%lu", (unsigned long) base_prog->ref);
+  snprintf (pf, sizeof pf, "%s/%s", pa, pb);
+  if (fault_first)
+    {
+      /* only when a fault-injection sweep found a difference: the judge reports it with the verdict */
+      size_t l = strlen (tx);
+      snprintf (tx + l, sizeof tx - l, " k:%ld", fault_first);
+      fault_first = 0;
+    }
   if (pf[0] == 'x')
     vh_out ("%s st:%ld,%ld,%ld,%ld,-,-,%ld p:%s f:- t:%s", buf, now[0] - base[0], now[1] - base[1], now[2] - base[2],
             now[3] - base[3], now[6] - base[6], pf, tx);
@@ -250,6 +285,7 @@ static void put_slot (int d, svalue_t v)
   *slot (d) = v;
 }
 
+static const char *clone_name = "/c06/uobj";
 static object_t *clone_uobj (void)
 {
   error_context_t econ;
@@ -260,7 +296,7 @@ static object_t *clone_uobj (void)
       object_t *save = current_object;
       eval_cost = CONFIG_INT (__MAX_EVAL_COST__);
       current_object = master_ob;
-      ob = clone_object ("/c06/uobj", 0);
+      ob = clone_object (clone_name, 0);
       current_object = save;
       pop_context (&econ);
     }
@@ -427,6 +463,24 @@ static int unit_op (int n, char **t, int *a)
       add_ref (ob, "c06 handle");
       uhandle[a[1]] = ob;
     }
+  else if (!strcmp (t[0], "newobjr"))
+    {
+      char nm[32];
+      object_t *ob;
+      snprintf (nm, sizeof nm, "/c06/rc%s", lay_name[a[2]]);
+      clone_name = nm;
+      ob = clone_uobj ();
+      clone_name = "/c06/uobj";
+      if (!ob)
+        {
+          vh_out ("harness-error clone");
+          return 0;
+        }
+      add_ref (ob, "c06 handle");
+      uhandle[a[1]] = ob;
+    }
+  else if (!strcmp (t[0], "reclaimu"))
+    reclaim_objects ();
   else if (!strcmp (t[0], "setvar"))
     assign_svalue (&hobj (a[1])->variables[a[2]], slot (a[3]));
   else if (!strcmp (t[0], "getvar"))
@@ -449,10 +503,10 @@ static int unit_op (int n, char **t, int *a)
     {
       svalue_t fun, args[2];
       char name[16];
-      if (a[3])
+      if (a[3] == 1)
         snprintf (name, sizeof name, "cbs%d", a[1]);
       else
-        snprintf (name, sizeof name, "cb");
+        snprintf (name, sizeof name, "%s", a[3] == 2 ? "cbe" : a[3] == 3 ? "cbd" : "cb");
       fun.type = T_STRING;
       fun.subtype = STRING_CONSTANT;
       fun.u.string = name;
@@ -496,18 +550,19 @@ static int unit_op (int n, char **t, int *a)
       unlink_string_svalue (slot (a[1]));
       slot (a[1])->u.string[a[2]] = t[3][0];
     }
-  else if (!strcmp (t[0], "inp"))
+  else if (!strcmp (t[0], "inp") || !strcmp (t[0], "inpr"))
     {
       svalue_t fun, args[2];
       object_t *save_co = current_object, *save_cg = command_giver;
       fun.type = T_STRING;
       fun.subtype = STRING_CONSTANT;
-      fun.u.string = "icb";
+      fun.u.string = t[0][3] == 'r' ? "icb2" : "icb";
       args[0] = *slot (a[2]);
       args[1] = *slot (a[3]);
       current_object = hobj (a[1]);
       command_giver = user_ob;
-      if (!input_to (&fun, 0, 2, args))
+      /* odd slot sum: get_char() - the same bookkeeping in a second copy of the code */
+      if (!((((a[2] + a[3]) & 1) && t[0][3] != 'r') ? get_char (&fun, 0, 2, args) : input_to (&fun, 0, 2, args)))
         vh_out ("harness-error input_to refused");
       current_object = save_co;
       command_giver = save_cg;
@@ -553,7 +608,11 @@ static int applicable (int n, char **t, int *a)
   if (!strcmp (op, "newmstr"))
     return n == 3 && SL (a[1]);
   if (!strcmp (op, "newfun"))
-    return n == 4 && SL (a[1]) && SL (a[3]) && objok (a[2]);
+    return n == 4 && SL (a[1]) && SL (a[3]) && objok (a[2]) && !objkind[a[2]];
+  if (!strcmp (op, "newobjr"))
+    return n == 3 && a[1] >= 0 && a[1] < NOBJ && a[2] >= 0 && a[2] < NLAY && !hobj (a[1]) && !exist_used[a[1]];
+  if (!strcmp (op, "replace"))
+    return n == 3 && objok (a[1]) && objkind[a[1]] && !objrepl[a[1]] && a[2] >= 0 && a[2] < 2;
   if (!strcmp (op, "fill"))
     return n == 4 && SL (a[1]) && SL (a[3]) && a[2] > 0;
   if (!strcmp (op, "assign"))
@@ -585,11 +644,11 @@ static int applicable (int n, char **t, int *a)
   if (!strcmp (op, "popto"))
     return n == 2 && SL (a[1]) && depth > 0 && !lpc_mode;
   if (!strcmp (op, "newobj"))
-    return n == 2 && a[1] >= 0 && a[1] < NOBJ && !hobj (a[1]) && !exist_used[a[1]];
+    return n == 2 && a[1] >= 0 && a[1] < NOBJ && !hobj (a[1]) && !exist_used[a[1]] && !unloaded[0];
   if (!strcmp (op, "setvar"))
-    return n == 4 && objok (a[1]) && a[2] >= 0 && a[2] < NVAR && SL (a[3]);
+    return n == 4 && objok (a[1]) && a[2] >= 0 && a[2] < NVAR && a[2] < (int) hobj (a[1])->prog->num_variables_total && SL (a[3]);
   if (!strcmp (op, "getvar"))
-    return n == 4 && objok (a[2]) && a[3] >= 0 && a[3] < NVAR && SL (a[1]);
+    return n == 4 && objok (a[2]) && a[3] >= 0 && a[3] < NVAR && a[3] < (int) hobj (a[2])->prog->num_variables_total && SL (a[1]);
   if (!strcmp (op, "oref"))
     return n == 3 && objok (a[2]) && SL (a[1]) && !lpc_mode;
   if (!strcmp (op, "dest"))
@@ -599,16 +658,16 @@ static int applicable (int n, char **t, int *a)
   if (!strcmp (op, "drop"))
     return n == 2 && a[1] >= 0 && a[1] < NOBJ && hobj (a[1]) != 0;
   if (!strcmp (op, "call"))
-    return n == 6 && a[1] >= 0 && a[1] < NCALL && objok (a[2]) && SL (a[4]) && SL (a[5]) && !call_used[a[1]];
+    return n == 6 && a[1] >= 0 && a[1] < NCALL && objok (a[2]) && !objkind[a[2]] && a[3] >= 0 && a[3] <= 3 && SL (a[4]) && SL (a[5]) && !call_used[a[1]];
   if (!strcmp (op, "rmcall"))
     return n == 2 && a[1] >= 0 && a[1] < NCALL && call_used[a[1]];
   if (!strcmp (op, "rmcalln"))
     return n == 2 && a[1] >= 0 && a[1] < NCALL && call_used[a[1]] && call_st[a[1]] && objok (call_owner[a[1]])
       && hobj (call_owner[a[1]]) == call_ownerp[a[1]];
   if (!strcmp (op, "rmall"))
-    return n == 2 && objok (a[1]);
+    return n == 2 && objok (a[1]) && !objkind[a[1]];
   if (!strcmp (op, "sent"))
-    return n == 5 && a[1] >= 0 && a[1] < NSENT && objok (a[2]) && SL (a[3]) && SL (a[4]) && !sent_used[a[1]];
+    return n == 5 && a[1] >= 0 && a[1] < NSENT && objok (a[2]) && !objkind[a[2]] && SL (a[3]) && SL (a[4]) && !sent_used[a[1]];
   if (!strcmp (op, "rmsent"))
     return n == 2 && a[1] >= 0 && a[1] < NSENT && sent_used[a[1]] && objok (sent_owner[a[1]])
       && hobj (sent_owner[a[1]]) == sent_ownerp[a[1]];
@@ -634,12 +693,29 @@ static int applicable (int n, char **t, int *a)
         return n == 4 && a[2] >= 0 && (size_t) a[2] < SVALUE_STRLEN (sv) && strlen (t[3]) == 1;
       return n == 5 && lpc_mode && a[2] >= 0 && a[2] <= a[3] && (size_t) a[3] < SVALUE_STRLEN (sv) && strlen (t[4]) > 0;
     }
-  if (!strcmp (op, "inp"))
-    return n == 4 && objok (a[1]) && SL (a[2]) && SL (a[3]) && !input_pending && user_ob;
+  if (!strcmp (op, "inp") || !strcmp (op, "inpr"))
+    return n == 4 && objok (a[1]) && !objkind[a[1]] && SL (a[2]) && SL (a[3]) && !input_pending && user_ob;
   if (!strcmp (op, "input"))
     return input_pending;
   if (!strcmp (op, "clones"))
-    return n == 2 && !lpc_mode && a[1] > 0;
+    return n == 2 && !lpc_mode && a[1] > 0 && !unloaded[0];
+  if (!strcmp (op, "unload"))
+    {
+      if (n != 2 || lpc_mode || a[1] < 0 || a[1] > 1 || unloaded[a[1]])
+        return 0;
+      for (int o = 0; o < NOBJ; o++)
+        if (exist_used[o] == 2)
+          return 0;
+      return 1;
+    }
+  if (!strcmp (op, "reclaim"))
+    return n == 1 && lpc_mode;
+  if (!strcmp (op, "reclaimu"))
+    return n == 1 && !lpc_mode;
+  if (!strcmp (op, "fefun"))
+    return n == 5 && lpc_mode && SL (a[2]) && SL (a[3]) && a[4] >= 0;
+  if (!strcmp (op, "frest"))
+    return n == 3 && lpc_mode && a[2] >= 0;
   if (!strcmp (op, "unclone"))
     {
       if (n != 2 || lpc_mode || nanon < a[1])
@@ -730,14 +806,36 @@ static int c06_cmd (char *line)
         if (tmp)
           {
             uobj_prog = tmp->prog;
+            base_prog = uobj_prog->num_inherited ? uobj_prog->inherit[0].prog : 0;
             destruct_object (tmp);
             remove_destructed_objects ();
           }
       }
+      /* the programs of the replace_program() family are loaded before the baseline, too */
+      for (int L = 0; L < NLAY; L++)
+        {
+          char nm[32];
+          object_t *tmp;
+          snprintf (nm, sizeof nm, "/c06/rc%s", lay_name[L]);
+          clone_name = nm;
+          tmp = clone_uobj ();
+          clone_name = "/c06/uobj";
+          if (!tmp || tmp->prog->num_inherited != 2)
+            {
+              vh_out ("harness-error layout %s", lay_name[L]);
+              halted = 1;
+              return 1;
+            }
+          lay_prog[L][2] = tmp->prog;
+          lay_prog[L][0] = tmp->prog->inherit[0].prog;
+          lay_prog[L][1] = tmp->prog->inherit[1].prog;
+          destruct_object (tmp);
+          remove_destructed_objects ();
+        }
       snapshot (base);
       {
-        static const char *nm[6] = { "cb", "cbs0", "cbs1", "cbs2", "cbs3", "act" };
-        for (int i = 0; i < 6; i++)
+        static const char *nm[8] = { "cb", "cbs0", "cbs1", "cbs2", "cbs3", "act", "cbe", "cbd" };
+        for (int i = 0; i < 8; i++)
           fn_names[i] = findstring (nm[i]);
         fn_base = fn_refs ();
       }
@@ -772,8 +870,9 @@ static int c06_cmd (char *line)
       {"fill", {1, 3, 0}}, {"assign", {1, 2, 0}}, {"aset", {1, 3, 0}}, {"aget", {1, 2, 0}},
       {"mset", {1, 2, 3}}, {"mdel", {1, 2, 0}}, {"push", {1, 0, 0}}, {"popto", {1, 0, 0}},
       {"setvar", {3, 0, 0}}, {"getvar", {1, 0, 0}}, {"oref", {1, 0, 0}}, {"call", {4, 5, 0}},
-      {"sent", {3, 4, 0}}, {"inp", {2, 3, 0}}, {"sappend", {1, 0, 0}}, {"sjoin", {1, 2, 0}}, {"sadd", {1, 2, 0}},
-      {"schar", {1, 0, 0}}, {"srange", {1, 0, 0}}, {"err", {1, 2, 0}}, {"efun", {2, 3, 0}}, {0, {0, 0, 0}}
+      {"sent", {3, 4, 0}}, {"inp", {2, 3, 0}}, {"inpr", {2, 3, 0}}, {"sappend", {1, 0, 0}}, {"sjoin", {1, 2, 0}}, {"sadd", {1, 2, 0}},
+      {"schar", {1, 0, 0}}, {"srange", {1, 0, 0}}, {"err", {1, 2, 0}}, {"efun", {2, 3, 0}}, {"fefun", {2, 3, 0}},
+      {0, {0, 0, 0}}
     };
     for (int u = 0; uses[u].op; u++)
       if (!strcmp (uses[u].op, t[0]))
@@ -822,6 +921,94 @@ static int c06_cmd (char *line)
       if (t[0][0] == 'c')
         applied = 1;
     }
+  else if (!strcmp (t[0], "unload"))
+    {
+      /* the blueprint object is destructed and cleaned up: dealloc_object -> free_prog (ob->prog) */
+      object_t *bp = lookup_object_hash (a[1] ? "c06/base" : "c06/uobj");
+      if (!bp)
+        {
+          vh_out ("harness-error unload: no blueprint");
+          halted = 1;
+          return 1;
+        }
+      save_context (&econ);
+      if (!setjmp (econ.context))
+        {
+          destruct_object (bp);
+          remove_destructed_objects ();
+          pop_context (&econ);
+        }
+      else
+        {
+          restore_context (&econ);
+          pop_context (&econ);
+          status = "drivererr";
+        }
+      unloaded[a[1]] = 1;
+    }
+  else if (!strcmp (t[0], "replace"))
+    {
+      /* the object calls replace_program() on itself (deferred), then the backend's replace_programs() */
+      char arg[2] = { (char) ('0' + a[2]), 0 };
+      char *w[1] = { arg };
+      if (vh_apply_str (hobj (a[1]), "shrink", 1, w, 0, 0) != 0)
+        status = "lpcerr";
+      replace_programs ();
+      objrepl[a[1]] = 1;
+      applied = 1;
+    }
+  else if (!strcmp (t[0], "fefun") || !strcmp (t[0], "frest"))
+    {
+      /* error paths, systematically: the no-effect operation `efun f s t` / `rest w` is run with an error injected
+       * at the k-th dispatched instruction (hook H2: the place where the evaluation-cost error is raised too);
+       * k = 0: for k = 1, 2, ... until the operation completes without reaching k.  After every run the
+       * (s)printf buffers are flushed and pending call_outs of the main object removed ("flush"), then all counters
+       * must be where they were. */
+      char buf[600], fl[] = "flush";
+      char *w[1] = { buf }, *wf[1] = { fl };
+      int isrest = t[0][1] == 'r';
+      long kk = isrest ? a[2] : a[4], k0 = kk ? kk : 1, k1 = kk ? kk : 4000;
+      long before[7], now[7];
+      unsigned long refs0[256];
+      int nc0 = ncells < 256 ? ncells : 256;
+      if (isrest)
+        snprintf (buf, sizeof buf, "rest %s", t[1]);
+      else
+        snprintf (buf, sizeof buf, "efun %d %d %d", a[1], a[2], a[3]);
+      snapshot (before);
+      for (int i = 0; i < nc0; i++)
+        refs0[i] = cell_ref (i);
+      for (long k = k0; k <= k1; k++)
+        {
+          int fired, diff = 0;
+          verif_fault_countdown = k;
+          vh_apply_str (main_ob, "do_op", 1, w, 0, 0);
+          fired = verif_fault_countdown == 0;
+          verif_fault_countdown = 0;
+          vh_apply_str (main_ob, "do_op", 1, wf, 0, 0);
+          snapshot (now);
+          for (int i = 0; i < 7; i++)
+            if (i != 5 && now[i] != before[i])
+              diff = 1;
+          for (int i = 0; i < nc0 && !diff; i++)
+            {
+              if (cell_ref (i) != refs0[i])
+                diff = 1;
+            }
+          if (diff)
+            {
+              if (!kk)
+                fault_first = k;
+              break;
+            }
+          if (!fired)
+            {
+              if (getenv ("C06_FAULTLOG"))
+                vh_out ("note c06: %s: the error was injected at every instruction 1..%ld", buf, k - 1);
+              break;
+            }
+        }
+    }
   else if (!strcmp (t[0], "cleanup"))
     {
       remove_destructed_objects ();
@@ -848,7 +1035,8 @@ static int c06_cmd (char *line)
           pop_context (&econ);
           command_giver = 0;
         }
-      input_pending = 0;
+      /* the callback may have installed a new input_to (icb2) */
+      input_pending = user_ob && user_ob->interactive && user_ob->interactive->input_to != 0;
       applied = 1;
     }
   else if (!strcmp (t[0], "sweep"))
@@ -859,6 +1047,15 @@ static int c06_cmd (char *line)
       applied = 1;
       for (int k = 0; k < NCALL; k++)
         call_used[k] = 0;
+      /* objects destructed by their own callback (cbd) */
+      for (int o = 0; o < NOBJ; o++)
+        if (exist_used[o] == 1 && existp[o] && !poisoned (existp[o]) && (existp[o]->flags & O_DESTRUCTED))
+          {
+            exist_used[o] = 2;
+            for (int k = 0; k < NSENT; k++)
+              if (sent_used[k] && sent_owner[k] == o)
+                sent_used[k] = 0;
+          }
     }
   else if (lpc_mode)
     {
@@ -876,7 +1073,7 @@ static int c06_cmd (char *line)
         cg = hobj (a[2]);
       else if (!strcmp (t[0], "rmcalln"))
         snprintf (buf, sizeof buf, "rmcalln %d %d", a[1], call_owner[a[1]]);
-      else if (!strcmp (t[0], "inp"))
+      else if (!strcmp (t[0], "inp") || !strcmp (t[0], "inpr"))
         cg = user_ob;
       command_giver = cg;
       rc = vh_apply_str (main_ob, "do_op", 1, w, 0, 0);
@@ -912,11 +1109,20 @@ static int c06_cmd (char *line)
       || !strcmp (t[0], "sappend") || !strcmp (t[0], "sjoin") || !strcmp (t[0], "sadd") || !strcmp (t[0], "schar")
       || !strcmp (t[0], "srange"))
     track_slot (a[1]);
-  else if (!strcmp (t[0], "newobj"))
+  else if (!strcmp (t[0], "newobj") || !strcmp (t[0], "newobjr"))
     {
+      objkind[a[1]] = t[0][6] == 'r' ? 1 + a[2] : 0;
+      objrepl[a[1]] = 0;
+      if (t[0][6] == 'r' && !lay_tracked[a[2]])
+        {
+          lay_tracked[a[2]] = 1;
+          for (int j = 0; j < 3; j++)
+            track (lay_prog[a[2]][j], K_PROG);
+        }
       if (hobj (a[1]))
         track (hobj (a[1]), K_OBJ);
       exist_used[a[1]] = 1;
+      existp[a[1]] = hobj (a[1]);
       applied = 1;
     }
   else if (!strcmp (t[0], "dest"))
@@ -926,14 +1132,14 @@ static int c06_cmd (char *line)
         if (sent_used[k] && sent_owner[k] == a[1])
           sent_used[k] = 0;
     }
-  else if (!strcmp (t[0], "inp"))
+  else if (!strcmp (t[0], "inp") || !strcmp (t[0], "inpr"))
     input_pending = 1;
   else if (!strcmp (t[0], "call"))
     {
       call_used[a[1]] = 1;
       call_owner[a[1]] = a[2];
       call_ownerp[a[1]] = hobj (a[2]);
-      call_st[a[1]] = a[3] != 0;
+      call_st[a[1]] = a[3] == 1;
     }
   else if (!strcmp (t[0], "rmcall") || !strcmp (t[0], "rmcalln"))
     call_used[a[1]] = 0;
